@@ -11,27 +11,32 @@ let parse_label (t : string) : label =
   | _ ->
     (match t.[0] with
      | 'A' -> Accept (num 1 n)
-     | 'W' ->
+     | 'W' | 'T' | 'P' ->
          let m = (match t.[n - 1] with '+' -> true | '-' -> false | _ -> failwith ("bad mark " ^ t)) in
-         Conn (num 1 (n - 1), WriteHead m)
+         Conn (num 1 (n - 1), (match t.[0] with 'W' -> WriteHead m | 'T' -> RTEnd m | _ -> RespStatus m))
      | c ->
          let k = (match c with
            | 'r' -> Register | 'n' -> Enter | 'h' -> HeadPart | 'q' -> ReqModStart
            | 't' -> RTStart | 's' -> ResModStart | 'e' -> ResModEnd | 'd' -> Decide
            | 'w' -> WriteDone | 'X' -> SockClose | 'f' -> Done
+           | 'F' -> WriteFail | 'G' -> CliGone
            | _ -> failwith ("bad token " ^ t)) in
          Conn (num 1 n, k))
 
 (* K<id>=<m|u|T>*:<c|o> *)
-let parse_view (idx : int) (t : string) : (bool * bool) list * bool =
+let parse_view (tr : label list) (idx : int) (t : string) =
   match String.index_opt t '=' with
   | None -> failwith ("bad view " ^ t)
   | Some i ->
       if int_of_string (String.sub t 1 (i - 1)) <> idx then failwith ("view out of order " ^ t);
       let v = String.sub t (i + 1) (String.length t - i - 1) in
+      (* a client that went away on purpose cannot report: its view is exempt *)
+      if v = "!" then expected_view tr (nat_of_int idx) else
       (match String.split_on_char ':' v with
        | [rs; e] ->
-           (List.map (function 'm' -> (true, true) | 'u' -> (true, false) | _ -> (false, false))
+           (List.map (function 'm' -> ((true, true), false) | 'u' -> ((true, false), false)
+                             | 'M' -> ((true, true), true) | 'U' -> ((true, false), true)
+                             | _ -> ((false, false), false))
               (chars_of_string rs), e = "c")
        | _ -> failwith ("bad view " ^ t))
 
@@ -39,7 +44,7 @@ let clause_name = function
   | 1 -> "inflight_completes" | 2 -> "marked_close" | 3 -> "marked_then_closed"
   | 4 -> "no_reqmod_after_return" | 5 -> "late_accept_not_served"
   | 6 -> "return_after_accepted_closed" | 7 -> "all_closed" | 8 -> "close_returns"
-  | 9 -> "all_answered" | 10 -> "client_view" | 11 -> "return_after_served_closed" | _ -> "unknown"
+  | 9 -> "all_answered" | 10 -> "client_view"  | 11 -> "return_after_served_closed" | 12 -> "status_matches_round_trip" | 13 -> "write_fails_only_if_client_gone" | _ -> "unknown"
 
 let rec split_bar acc = function
   | [] -> (List.rev acc, [])
@@ -66,7 +71,7 @@ let judge _name ins outs =
     VDisagree ("harness-could-not-drive-scenario:" ^ String.concat "," flags)
   else begin
     let tr = List.map parse_label trtoks in
-    let views = List.mapi parse_view vtoks in
+    let views = List.mapi (parse_view tr) vtoks in
     if not (c07_ok tr views) then begin
       let c = int_of_nat (c07_failing_clause tr views) in
       let detail =
